@@ -501,6 +501,9 @@ def model_item(d, proj, ep, inp, out, x):
     return {"ok": True, "v": [proj.model(dec_value(d, inp))]}, model_out(d, proj, out), env
 
 
+sweep_stats = {}
+
+
 def project(decls_by_id, obs_path):
     """observations -> (model decl table, trace events, index for reporting)."""
     by_decl = {}
@@ -508,6 +511,18 @@ def project(decls_by_id, obs_path):
         for line in f:
             if line.strip():
                 o = json.loads(line)
+                if o["ep"] == "sweep":
+                    # aggregated sweep: every witness becomes an ordinary constructor pair
+                    d0 = decls_by_id[o["d"]]
+                    pairs = []
+                    for (_inp, out, _x) in o["b"]:
+                        if out.get("k") != "multi":
+                            raise ToolError("sweep of %s returned %r" % (o["d"], out))
+                        sweep_stats["calls"] = sweep_stats.get("calls", 0) + int(out["calls"])
+                        sweep_stats["cell_classes"] = sweep_stats.get("cell_classes", 0) + int(out["cell_classes"])
+                        for (wi, wo, wx) in out["pairs"]:
+                            pairs.append([wi, wo, wx])
+                    o = {"d": o["d"], "ep": "try_new" if d0["vmode"] != "none" else "new", "b": pairs}
                 by_decl.setdefault(o["d"], []).append(o)
     table, events, index = {}, [], []
     for did, batches in by_decl.items():
